@@ -9,9 +9,8 @@
 //! The laws of laws.rs are evaluated at every send and receive. A violation is
 //! minimised and written as an explicit, replayable event list.
 
-mod laws;
 mod sim;
-mod simbuf;
+use buflaws::laws;
 #[allow(warnings, unused)]
 mod gen {
     include!(concat!(env!("BUFSIM_GEN"), "/registry.rs"));
